@@ -5,15 +5,113 @@ ROOT = os.path.dirname(os.path.dirname(os.path.abspath(__file__)))
 
 # id -> (engine, level, technique, text, note, design_ref)
 CHECKS = {
+ "C01": ("product-machine", "model_checking", "explicit-state BFS over (TypeState x runtime state x event) on the real compiler/runtime; invariant on every transition",
+         "Breadth-first search over all statement sequences (205-statement alphabet to depth 2, 44-statement core alphabet to depth 3; thorough: depth 4) x 6 external-type configurations x conforming events. Each transition compiles one statement with compile_with_state under the current TypeState and runs it on the carried RuntimeState; the whole path is also compiled in one piece and run from the initial event. On every transition: result in reported kind (or returns kind), final event/metadata in reported external kinds, every bound variable in its reported kind.",
+         "Independent membership predicate (harness/src/model/member.rs) over Kind's public accessors; hook H1 exposes LocalEnv bindings read-only. Programs outside the alphabet are not covered; stdlib type_defs are C03's job.", "3.1"),
+ "C02": ("product-machine", "model_checking", "explicit-state BFS on the real compiler/runtime (no cut after state corruption); outcome invariant on every transition",
+         "Same exploration as C01 but continued past corrupted type states: every accepted statement path without `f!(..)`/`abort` must end Ok/Return on every conforming event (NaN error text excepted), ProgramInfo.fallible==false implies no runtime error and abortable==false implies no abort, on the step-wise and the whole-program compilation.",
+         "NaN exception recognised by ValueError::NanFloat's own text. Attribution inside programs that also use `!` (hook H2) is not built: such programs are only checked against ProgramInfo.", "3.1"),
+ "C03": ("stdlib-sweep", "exploration", "bounded-exhaustive argument-tuple enumeration per stdlib function in sacrificial worker processes",
+         "For each of 188 stdlib functions: full cross product of per-parameter alphabets (enum variants + literals harvested from the function's own examples + per-kind edge values, shrunk longest-first to a per-function cap), optional parameters one at a time, closure bodies; literal and runtime-typed argument modes. Result must be in the call's static kind and in return_kind(); a call compiled without `!` must not error; a wrong-typed runtime argument must error.",
+         "Alphabets are finite; values beyond them are not covered. Membership predicate as in C01.", "3.3"),
+ "C04": ("stdlib-sweep + text-enumeration", "exploration", "bounded-exhaustive enumeration of stdlib calls and of token sequences with panic capture",
+         "Every case of the stdlib sweep (compile and run under catch_unwind in sacrificial workers) plus every token sequence up to the length bound through parse/compile/diagnostic rendering/run: no panic. Capacity-overflow/allocation failures are counted as out of scope, as the property says.",
+         "Harness profile has overflow-checks on (DESIGN R3): arithmetic overflow panics count. Inputs outside the alphabets are not covered.", "3.3/3.4"),
+ "C05": ("stdlib-sweep", "exploration", "bounded-exhaustive argument-tuple enumeration with a CPU-time watchdog in sacrificial worker processes",
+         "Same enumeration as C03 including extreme integers and non-finite floats; each call must return within 4 s of CPU time (suspects re-run alone with 60 s) and stay under a 6 GiB address-space cap.",
+         "Decides non-termination / unbounded growth on the enumerated tuples; the asymptotic clause is not decided (no deterministic cost measure). zstd levels >= 20 excluded (constant ~30 s table set-up in this build profile).", "3.3"),
+ "C06": ("differential-enumeration", "exploration", "exhaustive enumeration of programs from a context grammar, each run on all events and compared with a reference interpreter",
+         "All programs S(E1(E2(hole))) over 13 statement contexts x 18x18 expression contexts x return-holes, plus closure iteration-value programs, on a 10-event alphabet; outcome, result, final event, variables and both execution paths (Runtime::resolve, Program::resolve) compared with the reference interpreter's expectation embedded in the witness.",
+         "Reference interpreter (harness/src/model/interp.rs) implements the property wording for VRL-core; cases outside its domain are skipped and counted.", "3.2"),
+ "C07": ("differential-enumeration", "exploration", "exhaustive enumeration of programs from a context grammar against a reference interpreter",
+         "Same contexts as C06 with abort-holes (bare, with message, conditional, per-iteration inside closures): Terminate::Abort with the message, no later marker set, nothing intercepts it.",
+         "As C06.", "3.2"),
+ "C08": ("differential-enumeration", "exploration", "exhaustive enumeration of `??` / `ok, err =` programs against a reference interpreter",
+         "All programs `t = L ?? R`, `(L ?? R') ?? 99`, `ok, err = L` over 13 fallible left sides of several result types, 8 right sides with side-effect markers and 10 target shapes, on the 10-event alphabet: right side not evaluated on success, err null/string, documented defaults, and the stored value belongs to the static type of ok (hook H1).",
+         "As C06; the default of `ok` is compared only where the right-hand side has one static type.", "3.2"),
+ "C09": ("differential-enumeration", "exploration", "exhaustive enumeration of short-circuit / conditional programs against a reference interpreter",
+         "All `A op B`, `(A op B) op2 C`, `A op (B op2 C)` for ||/&& over 13 left operands x 7 side-effecting right operands, and all if / else-if / else / nested-if programs over 9 predicates, on the 10-event alphabet: value, markers of evaluated operands/branches, variables.",
+         "As C06; operands outside an operator's boolean domain are skipped (the property does not fix their evaluation order).", "3.2"),
  "C10": ("law-engine", "exploration", "exhaustive operand-pair enumeration against i64/IEEE/bytewise reference",
          "Every ordered pair of the per-kind operand alphabets (integers incl. 2^k±2 and i64 extremes, floats incl. ±0/±inf/2^53, byte strings incl. non-UTF-8, timestamps, nested values) is run through compiled `.a <op> .b` programs for all six comparison operators under an exact-kind and an `any` environment; verdicts are compared with a reference ordering, and trichotomy/negation/consistency are checked on the operators themselves.",
          "Reference = Rust's i64/f64/byte-slice/DateTime ordering; operands outside the alphabets are not covered.", "3.7"),
  "C11": ("law-engine", "exploration", "exhaustive operand-pair enumeration against i128/IEEE reference",
          "Every ordered operand pair (same alphabets plus null and repeat counts) × {+,-,*,/} × {exact-kind env, any env} is executed and compared with i128-then-truncate integer arithmetic, IEEE float arithmetic on converted operands, NaN⇒error, zero divisor⇒error, concatenation and max(n,0) repetition.",
          "Reference = Rust i128/f64 arithmetic; string repetition counts above 4096 are excluded (resource exhaustion is out of scope).", "3.7"),
+ "C12": ("product-machine", "model_checking", "explicit-state BFS on the real compiler/runtime; constant-vs-runtime invariant on every transition",
+         "Same exploration as C01: after every transition every variable for which the compiler recorded a compile-time constant (hook H1) must hold exactly that value at runtime; constant consumers (`10 / x`, `x || .s`, …) are in the alphabet so stale constants also surface as wrong outcomes under C01/C02.",
+         "The constant recorded for the external target is never consulted by the compiler and is not judged (DESIGN §8).", "3.1"),
+ "C13": ("differential-enumeration", "exploration", "exhaustive enumeration of closure-calling programs against a reference interpreter",
+         "All programs calling for_each/filter/map_values/map_keys over {object, array} x {0,1,2 elements, event field} x 7 closure bodies (succeeds, fails on every/2nd element, returns, aborts, assigns its parameter, nested closure) x parameter names pre-bound or unset x {bare, `?? \"failed\"`, `ok, err =`} on the 10-event alphabet; RuntimeState::variable of every parameter name after the run must equal the reference (restored or unset).",
+         "As C06. replace_with is exercised by the stdlib sweep only.", "3.2"),
+ "C16": ("product-machine", "model_checking", "explicit-state BFS on the real compiler/runtime with a logging Target; coverage invariant on every target operation",
+         "Same exploration as C01 run on a Target wrapper that logs every target_get/get_mut/insert/remove: each read must be covered (equal, ancestor or descendant) by ProgramInfo.target_queries, each insert by target_assignments, each remove by either list.",
+         "`del` mutates without assigning: removes may be covered by queries or assignments.", "3.1"),
+ "C18": ("value-bfs", "model_checking", "explicit-state BFS over Value states under insert/remove actions on the real crud code",
+         "BFS from 9 seed values over insert/remove actions (paths of up to 2, thorough 3, segments incl. negative indices and quoted fields; event and metadata prefixes) to depth 2 (thorough 3) through TargetValue: read-after-insert, frame law, remove returns what get returned, no access through non-containers.",
+         "Frame law restricted to locations the property decides (padding/coercion side effects are recorded, not judged).", "3.5"),
+ "C19": ("kind-simulation", "model_checking", "explicit-state BFS over (value, kind) pairs; simulation relation checked on every transition",
+         "BFS over pairs (v, K) with v ∈ K under get/insert/remove/union/merge applied to both components: the independent membership predicate must keep holding, and is_superset must agree with membership.",
+         "Value-level overwrite merge is observed, not judged (DESIGN §8).", "3.5"),
+ "C20": ("law-engine", "exploration", "exhaustive enumeration of owned paths and of short path texts through every renderer/parser",
+         "Every owned path of <= 3 segments over 33 segments x {event, metadata, value path} must survive render->parse through String/Display/serde/FromStr/TryFrom/parse_*; every text of <= 5 characters over a 14-character alphabet (plus quoted/bracket frames and hand-picked texts) that both the string path parser and the VRL parser accept must denote the same (prefix, segments), also in ProgramInfo and in what the compiled query reads/writes at runtime.",
+         "Texts only one reader accepts are counted, never judged.", "3.6"),
+ "C21": ("law-engine", "exploration", "exhaustive enumeration of JSON-representable values x 20 encode/decode routes",
+         "Scalars (233 boundary integers, ~60 hard floats and a sign/exponent/significand sweep), all strings of length <= 2 over a 73-character alphabet as values and keys, containers to depth 3 and nesting depth 1..1000, through 13 VRL spellings of parse_json!(encode_json(..)) and 7 serde routes: structural equality, floats within 1 ulp.",
+         "The JSON text itself is never judged; sign of zero counted only.", "3.7"),
+ "C22": ("law-engine", "exploration", "exhaustive enumeration of byte strings x codec option combinations",
+         "All 65,793 byte strings of length <= 2, boundary lengths up to 4097 and large inputs through base16, base64 (15 option pairs), percent (10 sets), punycode, gzip/zlib (all levels), zstd, snappy, lz4 (7 pairs) and 27 charsets: decode(encode(b)) == b and the encoder accepts every in-scope input.",
+         "Charset repertoires written down from code charts and cross-checked with Python codecs.", "3.7"),
+ "C23": ("law-engine", "exploration", "exhaustive enumeration of algorithms x plaintext lengths x key/IV patterns; ip x mode x key",
+         "All 32 algorithms (table cross-checked at run time against the functions' own usage text) x 3 spellings x plaintext lengths 0..50 and block boundaries x 6x6 key/IV patterns; 1296 IPv4 and ~540 IPv6 addresses x 2 modes x 9 keys: decrypt(encrypt(p)) == p, documented key sizes accepted.",
+         "A pfx key with equal halves may be rejected with an error (algorithm restriction), never with a panic.", "3.7"),
+ "C26": ("law-engine", "exploration", "exhaustive enumeration of messages with <= 4 populated fields per message type",
+         "For all 19 message types found in the 4 bundled descriptor sets (read at run time): every object with <= 4 populated fields from per-type edge alphabets (integer widths, floats, strings, bytes, enums, nested messages, repeated, maps with every key type) x allow_lossy_string_coercion omitted/true/false through encode_proto! then parse_proto!, compared after dropping proto3 defaults.",
+         "Symmetric bugs inside prost itself are not visible.", "3.7"),
+ "C30": ("law-engine", "exploration", "exhaustive enumeration of query texts (token sequences and value strings in grammar positions)",
+         "All sequences of 1-4 tokens over 36 grammar tokens with every blank pattern, and all strings of <= 3 symbols over 42 symbols in 21 grammar positions: parse(to_lucene(parse(q))) == parse(q) for every accepted q. Failing cases are attributed to root-cause clauses and the shortest witness per clause is reported.",
+         "A change that only adds failing cases to an already failing root-cause clause is reported only if its witness is shorter (stated limitation).", "3.8"),
+ "C31": ("law-engine", "exploration", "exhaustive enumeration of leaf queries, boolean compositions and ranges x events against an independent evaluator and compositional identities",
+         "2,419 leaf queries x 78 events against an independent evaluator over plain values; 48 boolean templates over a 34-leaf pool and 10 field-group templates (m(NOT q) = not m(q), AND/OR/juxtaposition/precedence); range law [l TO u] = >=l and <=u over 6 fields x 10^2 bounds x 4 bracket forms — all through compiled match_datadog_query.",
+         "Behaviour the property leaves open (null/array values, `?` in globs, number-vs-string mixes) is counted, not judged.", "3.8"),
+ "C32": ("law-engine", "exploration", "exhaustive enumeration of grok rules x inputs against an independently assembled anchored regex (same engine); all alias digraphs",
+         "Literal rules over 36 characters (incl. 14 escaped metacharacters), rule sequences of 1-3 items from 76 items (25 patterns, 8 filters, aliases) on ~330 inputs plus rule-derived inputs, first-match law, many-captures rules, and all digraphs on <= 3 aliases for cycle detection, through parse_groks!.",
+         "Reference regex runs under onig (the property is about the translation, not the engine).", "3.8"),
+ "C33": ("text-enumeration", "exploration", "exhaustive enumeration of token sequences and single-token edits; every diagnostic label checked and rendered",
+         "Every sequence of <= 3 tokens over 104 tokens (both joined and space-separated), <= 4 over 30 unicode/escape-heavy tokens, every single-token edit of 79 corpus programs and 2197 template fills, compiled under a default and a closed typed environment: every label of every diagnostic within the source and on char boundaries; plain and coloured rendering returns Ok. Violating texts are reduced deterministically (each reduction step re-runs the real compiler).",
+         "Label accuracy (pointing at the right place) is not judged — the property does not ask for it.", "3.4"),
+ "C34": ("program-enumeration", "exploration", "exhaustive enumeration of programs shape(context(candidate)); flagged span blanked and both programs run on all events",
+         "408 candidates x 31 contexts x 4 shapes: for every `unused literal|object|result` warning the flagged span is blanked (same byte length); original and edited programs run on 6 events with metadata: infallible flagged text => same success and same final event/metadata; fallible => same final event when the original succeeds.",
+         "Positions where deletion cannot parse are counted as not removable and not judged.", "3.11"),
+ "C27": ("law-engine", "exploration", "exhaustive enumeration of messages/keys/variants against independent reference digests",
+         "Every message of the length/boundary alphabet x every variant of md5, sha1, sha2, sha3, hmac, crc (112 catalogue entries), xxhash (XXH32/64/XXH3-64/128) and seahash, compared with Python hashlib/hmac and hand-written Rocksoft-model CRC, XXH and SeaHash references (self-checked on published vectors).",
+         "Python stdlib hashlib/hmac/zlib/binascii trusted; CRC parameters from the reveng catalogue.", "3.7"),
+ "C28": ("law-engine", "exploration", "exhaustive enumeration of short strings/collections x option combinations against hand-written references",
+         "12 laws (casing idempotence, strip_whitespace, split/join, starts_with/ends_with/contains, truncate, strlen/length, slice, unique, compact with all 2^6 flag settings, keys/values, merge) over all strings up to length 3-4 over edge alphabets and all option combinations.",
+         "Unicode White_Space table and case mappings from Rust std; behaviour the property leaves open is counted, not judged.", "3.7"),
+ "C29": ("law-engine", "exploration", "exhaustive enumeration of floats/integers x precisions with exact big-integer oracles",
+         "round/ceil/floor over ~1900 edge floats x 55 precisions, abs, mod (131k integer pairs), conversions and parse_int over all bases: exact rational/big-integer verdicts (bound 10^-p, direction, finiteness, truncated-remainder signs, mutual consistency).",
+         "Two sharpenings beyond the literal bound (exact integer at precision 0; decimal grid where 10^p and x*10^p are normal doubles) are declared in the evidence.", "3.7"),
+ "C35": ("law-engine", "exploration", "exhaustive enumeration of conversion names x canonical renderings x default timezones",
+         "Conversion::parse/convert on canonical text of integers, floats (4 renderings, bit-exact), every letter-case boolean spelling, and 158 instants in RFC 3339 and 24 strftime formats under 11 default zones and 3 TZ environments.",
+         "Canonical text = Rust Display / chrono formatting; ambiguous local times are skipped and counted.", "3.7"),
+ "C36": ("law-engine", "exploration", "exhaustive enumeration of programs x timezones; results compared across zones",
+         "Timestamp programs, log parsers and 606 deterministic stdlib examples are each run under UTC twice, 9 other named zones and Local (3 TZ environments): zone-free programs must give identical results; zone readers are counted.",
+         "The zone-reader list is derived from Context::timezone() users in the pinned tree.", "3.7"),
 }
 
-PENDING_REASON = "check not built yet in this round (design in DESIGN.md §3); will be claimed once its engine exists"
+ENGINES = [
+ ("product-machine", "harness/src/props/pm.rs", "explicit-state BFS over statement sequences; a transition = compile_with_state + Program::resolve on the real code; whole-path recompilation as conformance"),
+ ("differential-enumeration", "harness/src/props/diff.rs", "all programs of a focused grammar x all events, real compiler/runtime vs. reference interpreter (harness/src/model/interp.rs)"),
+ ("stdlib-sweep", "harness/src/props/sweep.rs", "every stdlib function x bounded-exhaustive argument tuples in sacrificial worker processes with a CPU-time watchdog"),
+ ("law-engine", "harness/src/law.rs", "flat exhaustive enumeration of fully described cases through compiled VRL snippets / public APIs, compared with a reference"),
+ ("text-enumeration", "harness/src/props/c33.rs", "all token sequences / single-token edits through parse, compile and diagnostic rendering"),
+ ("program-enumeration", "harness/src/props/c34.rs", "all programs of a candidate x context grammar; edit-and-compare"),
+ ("value-bfs", "harness/src/props/c18.rs", "explicit-state BFS over Value states on the real crud code"),
+ ("kind-simulation", "harness/src/props/c19.rs", "explicit-state BFS over (value, kind) pairs; simulation relation"),
+]
+
+PENDING_REASON = "check not built yet (design in DESIGN.md §3); will be claimed once its engine exists"
 
 def main():
     props = [json.loads(l) for l in open(os.path.join(ROOT, "properties.jsonl"))]
@@ -48,8 +146,8 @@ def main():
             "add_only": True,
         },
         "engines": [
-            {"name": "law-engine", "path": "harness/src/props/ops.rs", "serves_properties": ["C10", "C11"],
-             "kind_free_text": "flat exhaustive enumeration of operand tuples through compiled VRL snippets, compared with a reference model"},
+            {"name": n, "path": p_, "serves_properties": [k for k, v in CHECKS.items() if v[0].startswith(n)], "kind_free_text": t}
+            for (n, p_, t) in ENGINES
         ],
         "checks": checks,
         "not_applicable": na,
